@@ -48,7 +48,7 @@ def main():
                 hit = [n for n, pred in R.items() if n.startswith("method:") and _safe(pred, case)]
             if not hit:
                 unassigned[c["bucket"]].append(c)
-            for h in hit[:1]:
+            for h in hit:
                 groups[(h, None)].append(c)
     entries = []
     os.makedirs(os.path.join(HOME, "known", pid), exist_ok=True)
